@@ -41,6 +41,7 @@ package phase5
 
 //@ func execPolylineRouting
 //@   requires g != nil && routesOK(routes)
+//@   requires[noflat|C17] forall i int :: 0 <= i && i < len(routes) ==> routes[i].From.Layer != routes[i].To.Layer
 //@   requires forall i int :: 0 <= i && i < len(routes) ==> routes[i].Points == nil
 //@   modifies Edge.Points, Elems[[2]float64], alloc
 //@   ensures[poly] forall i int :: 0 <= i && i < len(routes) && routes[i].From.Layer != routes[i].To.Layer ==> polyDone(g, routes[i])
